@@ -50,8 +50,8 @@ ASSUMPTIONS = [
     'discrepancies are pairwise distinct (ties at the cut leave the share undetermined); prior weights are positive',
 ]
 CONFIG = {
-    'quick': {'shards': 16, 'cases': 40, 'timeout': 600, 'floor': 128},
-    'thorough': {'shards': 32, 'cases': 1500, 'timeout': 3000, 'floor': 9600},
+    'quick': {'shards': 16, 'cases': 600, 'timeout': 600, 'floor': 1920},
+    'thorough': {'shards': 32, 'cases': 12000, 'timeout': 5400, 'floor': 76800},
 }
 REQUIRED = ['adjust_calls', 'params_formula_checked', 'rows_formula_checked', 'nonfinite_rows_dropped', 'params_with_own_nonfinite',
             'unused_summary_nonfinite_kept', 'unchanged_draws_checked', 'affine_params_checked', 'subset_parameter_cases',
